@@ -167,6 +167,52 @@ def _exec(op, kv):
         n = correlate(r, np.ones(len(q)), mode='valid', method='fft') + np.sum(q)
         assert np.max(np.abs(c - np.rint(c))) < 1e-6 and np.max(np.abs(n - np.rint(n))) < 1e-6
         return ",".join(str(int(x)) for x in np.rint(c)) + " N=" + ",".join(str(int(x)) for x in np.rint(n))
+    if op == "SEQ":
+        from src.correlation.sequence_generator import SequenceGenerator
+        stop = None if kv["stop"] == "none" else int(kv["stop"])
+        v = SequenceGenerator(int(kv["res"]), int(kv["blur"])).positionsToSequence(ints(kv.get("POS", "")), int(kv["start"]), stop)
+        return "".join(str(int(b)) for b in v)
+    if op == "XCORR":
+        # exactly the call `refine` makes: integer arrays, mode 'valid', method 'fft'
+        import numpy as np
+        from scipy.signal import correlate
+        r = np.array([int(c) for c in kv.get("R", "")], dtype=np.int64)
+        q = np.array([int(c) for c in kv.get("Q", "")], dtype=np.int64)
+        c = correlate(r, q, mode='valid', method='fft')
+        assert c.dtype.kind == "i", c.dtype
+        return ",".join(str(int(x)) for x in c)
+    if op == "FINDPEAKS":
+        # exactly the call `refine` makes (optical_map.py:206-211)
+        import numpy as np
+        from scipy.signal import find_peaks
+        x = np.array(ints(kv.get("X", "")), dtype=np.int64)
+        thr = frac(kv["thr"])
+        pk, pr = find_peaks(x, height=float(thr), width=(None, None), prominence=0.05 * x.max(initial=0))
+        return ",".join(f"{int(p)}:{num(h)}" for p, h in zip(pk, pr["peak_heights"]))
+    if op == "REFINE":
+        import numpy as np
+        from src.correlation.optical_map import InitialAlignment
+        from src.correlation.sequence_generator import SequenceGenerator
+        res, bl, margin, thr = kv["sec"].split(",")
+        ref, qry = C.parse_map(kv["REF"]), C.parse_map(kv["QRY"])
+        ia = InitialAlignment(np.array([]), qry, ref, [], kv["rev"] == "1", 0., 1400, 1)
+        ra = ia.refine(int(kv["peak"]), SequenceGenerator(int(res), int(bl)), int(margin), float(frac(thr)))
+        pk = [(p.position, p.height) for p in ra.peaks]
+        # more than 10 pass find_peaks <=> createPeaks went through argpartition; observable only through the
+        # correlation the result carries: re-count with the same call
+        from scipy.signal import find_peaks
+        allh = sorted(find_peaks(ra.correlation, height=float(frac(thr)), width=(None, None),
+                                 prominence=0.05 * ra.correlation.max(initial=0))[1]["peak_heights"], reverse=True)
+        n = len(allh)
+        show = lambda ps: ",".join(f"{num(p)}:{num(h)}" for p, h in ps)  # noqa: E731
+        if n <= 10:
+            return f"n={n} " + show(pk)
+        pk = sorted(pk)
+        if allh[9] == allh[10]:
+            h = min(x[1] for x in pk)
+            strict = [x for x in pk if x[1] > h]
+            return "n=many " + show(strict) + f" +{len(pk) - len(strict)}@{num(h)}"
+        return "n=many " + show(pk)
     if op == "TOPN":
         import numpy as np
         from src.correlation.optical_map import CorrelationResult
